@@ -1,14 +1,20 @@
 import Driver.Util
 import Driver.Langid
+import Driver.Escape
 import Driver.Pipeline
 import Driver.Context
 import Driver.Router
+import Driver.FormatCache
+import Driver.LocaleEnum
 open Lean Driver
 
 def dispatch (j : Json) : R Json := do
   let op ← strF j "op"
   match op with
   | "langid.filter" => opLangidFilter j
+  | "escape.json" => opEscapeJson j
+  | "escape.embed" => opEscapeEmbed j
+  | "escape.decode" => opEscapeDecode j
   | "pipeline.run" => opPipelineRun j
   | "parse.new" => opParseNew j
   | "range.new" => opRangeNew j
@@ -24,6 +30,12 @@ def dispatch (j : Json) : R Json := do
   | "router.construct" => opRouterConstruct j
   | "router.localize" => opRouterLocalize j
   | "router.path_builder" => opRouterPathBuilder j
+  | "locale.parse" => opLocaleParse j
+  | "locale.describe" => opLocaleDescribe j
+  | "locale.config" => opLocaleConfig j
+  | "fmt.spec" => opFmtSpec j
+  | "fmt.src" => opFmtSrc j
+  | "fmt.cache" => opFmtCache j
   | _ => .error s!"unknown op {op}"
 
 def handle (line : String) : String :=
